@@ -29,8 +29,15 @@ func VerifC12_Farm() {
 	verifExpect("roundtrip")
 	const h0 = int64(10)
 	e, k := c12FarmEnv(h0)
-	if err := k.SetParams(e.ctx, types.DefaultParams()); err != nil {
-		verifFail("default params rejected")
+	// a parameter set the authority has changed (every figure differs from the defaults): the export carries it
+	par := types.DefaultParams()
+	if verifChoice("changedParams", 2) == 1 {
+		par.PoolCreationFee = sdk.NewInt64Coin("stake", 4321)
+		par.MaxRewardCategories = 3
+		par.TaxRate = sdkmath.LegacyNewDecWithPrec(25, 2)
+	}
+	if err := k.SetParams(e.ctx, par); err != nil {
+		verifFail("valid params rejected")
 	}
 	creator, alice, bob := vAddr(1), vAddr(2), vAddr(3)
 	one := big.NewInt(1)
@@ -83,6 +90,7 @@ func VerifC12_Farm() {
 	}
 	verifAssert(e2.store().Has(types.KeyActiveFarmPool(p1.EndHeight, pool.Id)) == e.store().Has(types.KeyActiveFarmPool(p1.EndHeight, pool.Id)), "a running pool is queued for its end height after re-import (it will be ended by the end-block handler)")
 	verifAssert(k2.GetSequence(e2.ctx) == k.GetSequence(ctx), "the pool sequence survives")
+	verifAssert(verifDeepEqual(k2.GetParams(e2.ctx), par) && verifDeepEqual(g.Params, par), "the parameters in force survive export and import")
 	g2 := ExportGenesis(e2.ctx, k2)
 	verifAssert(verifDeepEqual(*g, *g2), "a second export equals the first")
 }
